@@ -59,7 +59,9 @@ type Ctx struct {
 	maxSamp  int
 	skip     map[string]bool
 	cur      atomic.Pointer[riskyCase]
-	outFile  string
+	// singleMode: this process confirms one risky case alone
+	singleMode bool
+	outFile    string
 }
 
 type riskyCase struct {
@@ -179,6 +181,9 @@ func (c *Ctx) watchdog(limit time.Duration) {
 		time.Sleep(500 * time.Millisecond)
 		rc := c.cur.Load()
 		if rc != nil && time.Since(rc.start) > limit {
+			if c.singleMode {
+				fmt.Printf("SINGLE-TIMEOUT: one step of the case did not return within %v\n", limit)
+			}
 			fmt.Fprintf(os.Stderr, "WATCHDOG: case exceeded %v: %s\n", limit, rc.desc)
 			os.Exit(3)
 		}
